@@ -334,7 +334,10 @@ impl CursorTracker for CursorTrackerImpl<'_> {
                         .sum::<usize>()
                         + reverse_col as usize;
 
-                    (new_token_offset + tok.get_content().len() - offset_from_end) as u32
+                    // The content may have become shorter (re-indented multi-line string), in which
+                    // case the cursor must not move in front of the token.
+                    (new_token_offset + tok.get_content().len().saturating_sub(offset_from_end))
+                        as u32
                 }
                 TokPos::Whitespace {
                     col,
